@@ -1,3 +1,4 @@
+import threading
 from collections.abc import Callable
 from typing import Generic, TypeVar
 
@@ -17,9 +18,10 @@ class _DelayState(Generic[T]):
 
 
 class Delay(IDeref[T], IPending):
-    __slots__ = ("_state",)
+    __slots__ = ("_lock", "_state")
 
     def __init__(self, f: Callable[[], T]) -> None:
+        self._lock = threading.RLock()
         self._state = atom.Atom(_DelayState(f=f, value=None, computed=False))
 
     @staticmethod
@@ -30,7 +32,14 @@ class Delay(IDeref[T], IPending):
             return _DelayState(f=state.f, value=state.f(), computed=True)
 
     def deref(self) -> T | None:
-        return self._state.swap(self.__deref).value
+        state = self._state.deref()
+        if state.computed:
+            return state.value
+        # `Atom.swap` may call its function once per racing thread (and again on
+        # every retry), so the swap which runs the body must be serialized or the
+        # body could run more than once.
+        with self._lock:
+            return self._state.swap(self.__deref).value
 
     @property
     def is_realized(self) -> bool:
